@@ -739,7 +739,7 @@ impl Runtime {
                 return Ok(None);
             } else if let Val::String(field) = self.stack.pop()? {
                 let mut field = field.trim();
-                if var_name.ends_with('$') {
+                if self.vars.is_string(&var_name) {
                     if field.len() >= 2 && field.starts_with('"') && field.ends_with('"') {
                         field = &field[1..field.len() - 1];
                     }
